@@ -4,8 +4,11 @@ package main
 
 import (
 	"bytes"
+	"compress/gzip"
 	"fmt"
 	cosmos_proto "github.com/cosmos/cosmos-proto"
+	"google.golang.org/protobuf/types/descriptorpb"
+	"io"
 	"math/rand"
 	"reflect"
 	"strings"
@@ -407,6 +410,53 @@ func (c *apiCtx) messageStructure(s *glue.Subject) {
 	if m.Type().Zero().IsValid() {
 		c.bad("type/zero-valid", tn, "Type().Zero() is a valid (mutable) message")
 	}
+	// the deprecated accessor Descriptor() ([]byte, []int): gzip-compressed FileDescriptorProto of the registered
+	// file plus the index path of this message in it
+	if dm, ok := s.Zero.(interface{ Descriptor() ([]byte, []int) }); ok {
+		var gz []byte
+		var path []int
+		pan, pmsg := safely(func() { gz, path = dm.Descriptor() })
+		c.rep.Count("C19", "legacy-descriptor-accessors-checked", 1)
+		if pan {
+			c.bad("legacy-descriptor/panic", tn, pmsg)
+		} else {
+			var fdp descriptorpb.FileDescriptorProto
+			zr, err := gzip.NewReader(bytes.NewReader(gz))
+			var raw []byte
+			if err == nil {
+				raw, err = io.ReadAll(zr)
+			}
+			if err == nil {
+				err = proto.Unmarshal(raw, &fdp)
+			}
+			switch {
+			case err != nil:
+				c.bad("legacy-descriptor/undecodable", tn, "Descriptor() bytes: "+err.Error())
+			case fdp.GetName() != d.ParentFile().Path():
+				c.bad("legacy-descriptor/other-file", tn, fmt.Sprintf("Descriptor() bytes describe file %q, the message belongs to %q", fdp.GetName(), d.ParentFile().Path()))
+			default:
+				// follow the index path
+				var cur *descriptorpb.DescriptorProto
+				okPath := len(path) > 0
+				for k, ix := range path {
+					var list []*descriptorpb.DescriptorProto
+					if k == 0 {
+						list = fdp.GetMessageType()
+					} else {
+						list = cur.GetNestedType()
+					}
+					if ix < 0 || ix >= len(list) {
+						okPath = false
+						break
+					}
+					cur = list[ix]
+				}
+				if !okPath || cur.GetName() != string(d.Name()) {
+					c.bad("legacy-descriptor/path", tn, fmt.Sprintf("Descriptor() index path %v does not lead to message %s", path, d.Name()))
+				}
+			}
+		}
+	}
 	// imports of the registered file resolve to the registered files, not to placeholders
 	imps := d.ParentFile().Imports()
 	for i := 0; i < imps.Len(); i++ {
@@ -770,6 +820,7 @@ func engineAPI(rep *Report) {
 			walkMsgs(f.Messages())
 		}
 		guardCase(rep, "C19", "api", "extension-variables", 0, func() { c.extensionVars() })
+		guardCase(rep, "C19", "api", "request-files-registered", 0, func() { c.requestFilesRegistered() })
 		// the root package (stock protoc-gen-go output) is a subject of C19 too
 		if f, err := protoregistry.GlobalFiles.FindFileByPath("cosmos_proto/cosmos.proto"); err == nil {
 			walkEnums(f.Enums())
@@ -882,6 +933,52 @@ func (c *apiCtx) extensionVars() {
 		})
 		if pan {
 			c.bad("extension/value-type", what, pmsg)
+		}
+	}
+}
+
+// requestFilesRegistered: every schema file given to the generator whose Go package is linked into this binary
+// (some file of the same Go import path is registered) is registered itself - also files that declare no message
+// (enums, extensions or services only).
+func (c *apiCtx) requestFilesRegistered() {
+	loadRequestDescriptors()
+	goPkg := func(o protoreflect.ProtoMessage) string {
+		fo, _ := o.(*descriptorpb.FileOptions)
+		p := fo.GetGoPackage()
+		if i := strings.Index(p, ";"); i >= 0 {
+			p = p[:i]
+		}
+		return p
+	}
+	linked := map[string]bool{}
+	protoregistry.GlobalFiles.RangeFiles(func(fd protoreflect.FileDescriptor) bool {
+		if p := goPkg(fd.Options()); p != "" {
+			linked[p] = true
+		}
+		return true
+	})
+	for name, fp := range reqProto {
+		if !strings.HasPrefix(name, "zzgen/") {
+			continue
+		}
+		p := goPkg(fp.GetOptions())
+		if p == "" || !linked[p] {
+			continue
+		}
+		c.rep.Eval("C19", []byte("request-file-registered|"+name), true)
+		c.rep.Count("C19", "request-files-looked-up", 1)
+		if _, err := protoregistry.GlobalFiles.FindFileByPath(name); err != nil {
+			c.bad("schema/file-not-registered", name, fmt.Sprintf("the schema file %s (Go package %s, which is linked into this program) was given to the generator but no file of that path is registered: %v", name, p, err))
+			continue
+		}
+		for _, e := range fp.GetEnumType() {
+			full := protoreflect.FullName(fp.GetPackage() + "." + e.GetName())
+			if fp.GetPackage() == "" {
+				full = protoreflect.FullName(e.GetName())
+			}
+			if _, err := protoregistry.GlobalTypes.FindEnumByName(full); err != nil {
+				c.bad("registry/enum-not-found", name, fmt.Sprintf("enum %s of %s is not reachable through the type registry: %v", full, name, err))
+			}
 		}
 	}
 }
